@@ -98,12 +98,17 @@ Section Statements.
 End Statements.
 
 (** Meaning of the checker run on the implementation's recorded answers: every recorded
-    [visit] answer allows every recorded [matches] answer below that directory. *)
+    [visit] answer allows every recorded [matches] answer below that directory, and the
+    recorded prefix-mode glob verdicts satisfy [gm_prefix_closed] on every asked tail (all
+    contiguous sub-ranges of the recorded paths). *)
 Theorem C30_okb_spec : forall c : case,
   okb c = true <->
   c_panicked c = false /\
-  forall d v p b q, In (d, v) (c_visits c) -> In (p, b) (c_matches c) -> p = d ++ q ->
-                    visit_allows N.eqb v q b = true.
+  (forall d v p b q, In (d, v) (c_visits c) -> In (p, b) (c_matches c) -> p = d ++ q ->
+                     visit_allows N.eqb v q b = true) /\
+  (forall pid t, In (true, pid, t) (c_globs c) ->
+   forall t' q, In t' (flat_map (fun pb => subranges (fst pb)) (c_matches c)) -> t' = t ++ q ->
+                gm_table (c_globs c) true pid t' = true).
 Proof. exact okb_spec. Qed.
 
 Check @C30_all : forall name pid (neqb : name -> name -> bool),
